@@ -38,6 +38,13 @@ def top_index(fi, node: ast.AST) -> Optional[int]:
 def eval_slice(repo, fi, upto: int, names: Set[str], env: Dict[str, Any], stop: Sequence[str]) -> Tuple[str, Dict[str, Any]]:
     """Interpret the statements of fi.body[:upto] that `names` depend on (inputs `stop` come from env).  -> (exit kind, environment)"""
     frag = backward_slice(fi.node.body, upto, set(names), stop=tuple(stop))
+    # a refusal that looks at what the slice computes belongs to it (`if columns is None: raise ValueError(...)` before the unpacking)
+    stored = {n.id for st in frag for n in ast.walk(st) if isinstance(n, ast.Name) and isinstance(n.ctx, ast.Store)}
+    guards = [st for st in fi.node.body[:upto] if isinstance(st, ast.If) and not st.orelse and st.body and isinstance(st.body[-1], ast.Raise) and st not in frag
+              and {n.id for n in ast.walk(st.test) if isinstance(n, ast.Name)} & stored and not any(isinstance(n, ast.Call) for n in ast.walk(st.test))]
+    if guards:
+        keep = set(map(id, frag)) | set(map(id, guards))
+        frag = [st for st in fi.node.body[:upto] if id(st) in keep]
     e = dict(env)
     e.update(module_callables(repo, M, outer=e))
     ev = BlockEval2(repo, M, e, max_steps=20000)
